@@ -9,12 +9,15 @@ What is proved here (about the model `Cedar/Fmt.lean`):
                              (tokens and comments) of the layout are the atoms of the document, in order.
   * `render_comment_safe`    if in the document every comment is followed by a `hardline` before the next token
                              (`docSafe`), then in every layout no token is swallowed by a `//` comment.
-  * `toDoc_tokens_partial`   for the modelled CST core, the document built by the mirror of doc.rs carries exactly
-                             the source tokens and comments in source order, EXCEPT trailing commas (`Comma<E>`),
-                             which are dropped *together with their comments* (that is the confirmed defect);
-                             `toDoc_comments_partial`: all comments survive iff no trailing comma carries one
-                             (`lost_comment_example` exhibits the loss); `toDocFixed_comments`: with the proposed
-                             repair all comments survive, unconditionally.  `toDoc_safe`: the documents are
+  * `toDocFixed_comments`    `toDocFixed` is the mirror of doc.rs AS IT IS NOW (since the repair `fix: formatter keeps
+                             comments attached to a dropped trailing comma`, /repo commit e8fc4bb): for the modelled
+                             CST core the document carries the source tokens and comments in source order, only the
+                             trailing `,` tokens themselves are dropped (`toDocFixed_tokens`), so all comments
+                             survive in every layout, unconditionally.
+  * `toDoc_tokens_partial`   `toDoc` is the mirror of doc.rs BEFORE that repair (kept as the record of the defect
+                             this check found): trailing commas (`Comma<E>`) were dropped *together with their
+                             comments*; `toDoc_comments_partial`: all comments survive iff no trailing comma carries
+                             one (`lost_comment_example` exhibits the loss).  `toDoc_safe`: the documents are
                              comment-safe.
   * `pipeline_correct`       abstract pipeline: atom-preserving (up to a parse-invariant, comment-preserving,
                              idempotent token normalisation) ∧ output on comment-free text a function of
